@@ -79,10 +79,9 @@ theorem noZombieR_congr {r r' : Replica} (h : NoZombieR r)
 /-- deletion records of a day: whatever the switches, every record that is stored removes the row from its room -/
 theorem applyNTombs_noZombieR (d : Defects) (rights : Rights) {dst : Replica} (h : NoZombieR dst) (ts : List NTomb) :
     NoZombieR (applyNTombs d rights dst ts) ∧ ∀ x ∈ dst.deadPairs, x ∈ (applyNTombs d rights dst ts).deadPairs := by
-  unfold applyNTombs
-  refine foldl_preserves (fun r : Replica => NoZombieR r ∧ ∀ x ∈ dst.deadPairs, x ∈ r.deadPairs) _ _ _
+  refine applyNTombs_induct d rights ts (fun r : Replica => NoZombieR r ∧ ∀ x ∈ dst.deadPairs, x ∈ r.deadPairs) dst
     ⟨h, fun x hx => hx⟩ ?_
-  intro r t ⟨hz, hm⟩
+  intro r t _ ⟨hz, hm⟩
   unfold applyNTomb
   simp only
   constructor
